@@ -426,42 +426,55 @@ func init() {
 				return true
 			})
 			okTable := false
-			inspect(nk.Decl.Body, func(nd ast.Node) bool {
-				outer, ok := nd.(*ast.RangeStmt)
-				if !ok || ranges == nil || prog.IdentObj(ni, outer.X) != ranges {
-					return true
+			for _, outer := range fullLoopsOver(ni, nk.Decl.Body, func(e ast.Expr) bool { return ranges != nil && prog.IdentObj(ni, e) == ranges }) {
+				i := outer.Idx
+				if i == nil {
+					continue
 				}
-				i, rv := prog.IdentObj(ni, outer.Key), prog.IdentObj(ni, outer.Value)
+				elemField := func(e ast.Expr, name string) bool {
+					sel, ok := deref(ni, e).(*ast.SelectorExpr)
+					return ok && sel.Sel.Name == name && outer.IsElem(sel.X)
+				}
+				isI := func(e ast.Expr) bool { return prog.IdentObj(ni, stripConv(ni, e)) == i }
 				for _, st := range outer.Body.List {
-					fs, ok := st.(*ast.ForStmt)
-					if !ok || fs.Init == nil || fs.Cond == nil || fs.Post == nil {
-						continue
-					}
-					init, ok1 := fs.Init.(*ast.AssignStmt)
-					cond, ok2 := ast.Unparen(fs.Cond).(*ast.BinaryExpr)
-					post, ok3 := fs.Post.(*ast.IncDecStmt)
-					if !ok1 || !ok2 || !ok3 || len(init.Lhs) != 1 {
-						continue
-					}
-					j := prog.IdentObj(ni, init.Lhs[0])
-					startSel, okS := ast.Unparen(init.Rhs[0]).(*ast.SelectorExpr)
-					endSel, okE := ast.Unparen(cond.Y).(*ast.SelectorExpr)
-					if !okS || !okE || startSel.Sel.Name != "Start" || endSel.Sel.Name != "End" || prog.IdentObj(ni, startSel.X) != rv || prog.IdentObj(ni, endSel.X) != rv {
-						continue
-					}
-					if cond.Op != token.LSS || prog.IdentObj(ni, cond.X) != j || post.Tok != token.INC || prog.IdentObj(ni, post.X) != j {
-						continue
-					}
-					for _, bs := range fs.Body.List {
-						if as, ok := bs.(*ast.AssignStmt); ok && len(as.Lhs) == 1 {
-							if ix, ok := ast.Unparen(as.Lhs[0]).(*ast.IndexExpr); ok && prog.IdentObj(ni, ix.Index) == j && prog.IdentObj(ni, stripConv(ni, as.Rhs[0])) == i {
-								okTable = true
+					switch fs := st.(type) {
+					case *ast.ForStmt:
+						// for j := r.Start; j < r.End; j++ { lookup[j] = i }
+						init, ok1 := fs.Init.(*ast.AssignStmt)
+						cond, ok2 := ast.Unparen(fs.Cond).(*ast.BinaryExpr)
+						post, ok3 := fs.Post.(*ast.IncDecStmt)
+						if !ok1 || !ok2 || !ok3 || len(init.Lhs) != 1 || len(init.Rhs) != 1 {
+							continue
+						}
+						j := prog.IdentObj(ni, init.Lhs[0])
+						if !elemField(init.Rhs[0], "Start") || !elemField(cond.Y, "End") {
+							continue
+						}
+						if cond.Op != token.LSS || prog.IdentObj(ni, cond.X) != j || post.Tok != token.INC || prog.IdentObj(ni, post.X) != j {
+							continue
+						}
+						for _, bs := range fs.Body.List {
+							if as, ok := bs.(*ast.AssignStmt); ok && len(as.Lhs) == 1 && len(as.Rhs) == 1 {
+								if ix, ok := ast.Unparen(as.Lhs[0]).(*ast.IndexExpr); ok && prog.IdentObj(ni, ix.Index) == j && isI(as.Rhs[0]) {
+									okTable = true
+								}
 							}
 						}
 					}
 				}
-				return true
-			})
+				// for j := range lookup[r.Start:r.End] { sub[j] = i } (the sub-slice taken first)
+				isSub := func(e ast.Expr) bool {
+					sl, ok := deref(ni, e).(*ast.SliceExpr)
+					return ok && sl.Low != nil && sl.High != nil && sl.Max == nil && elemField(sl.Low, "Start") && elemField(sl.High, "End")
+				}
+				for _, inner := range fullLoopsOver(ni, outer.Body, isSub) {
+					for _, bs := range inner.Body.List {
+						if as, ok := bs.(*ast.AssignStmt); ok && len(as.Lhs) == 1 && len(as.Rhs) == 1 && inner.IsElem(as.Lhs[0]) && isI(as.Rhs[0]) {
+							okTable = true
+						}
+					}
+				}
+			}
 			if !okTable {
 				r.Fail(nk.Name()+":lookup", nk.Decl.Pos(), nil, "the range lookup table is not filled as lookup[j] = i for every j in [ranges[i].Start, ranges[i].End): routing (RangeIndex) and ownership (ranges) would disagree")
 			}
